@@ -101,7 +101,7 @@ inductive Expr
 inductive Frag
   | raw (s : List Char)       -- `raw( … )`
   | wrap (s : List Char)      -- `wrap( … )`
-  | str (s : List Char)       -- `breakLongStr( s )`
+  | str (s : List Char) (paren : Bool := false)      -- `breakLongStr_paren( s, paren )`
   deriving Repr, DecidableEq
 
 structure PState where
@@ -188,17 +188,34 @@ def breakPieces (st : PState) : List (List Char) → Bool → PState
   | [], _ => st
   | p :: ps, first => breakPieces (raw (maybeBreak st p.length first) p) ps false
 
-def breakLongStr (st : PState) (s0 : List Char) : PState :=
+/-- `literalSplits`: would the pieces, printed from column `cur`, be split into `'a' + 'b'` -/
+def literalSplits (st : PState) : List (List Char) → Nat → Bool → Bool → Bool
+  | [], _, _, _ => false
+  | p :: ps, cur, sl, first =>
+    if decide (cur > st.indent2) && decide (cur + p.length > st.linelen) then
+      if first then literalSplits st ps (st.indent2 + 2 + p.length) sl false else true
+    else literalSplits st ps ((if first then cur + (if sl then 1 else 2) else cur) + p.length) sl false
+
+def openParen : List Char := ['(', ' ']
+
+/-- does `breakLongStr_paren( s, paren )` on its split path put the literal in parentheses -/
+def splitParen (st : PState) (ps : List (List Char)) (paren : Bool) : Bool :=
+  paren && (literalSplits st ps (if wrapBreaks st 2 then st.indent2 + 2 else st.curpos + 2) true true
+            || literalSplits st ps st.curpos st.spaceLast true)
+
+def breakLongStr (st : PState) (s0 : List Char) (paren : Bool := false) : PState :=
   let s := escQ s0
   if s.length = 0 ∨ s.length + st.curpos < st.linelen then
     raw st ((if st.spaceLast then [] else [' ']) ++ ['\''] ++ s ++ ['\''])
   else
-    raw (breakPieces st (splitDots s) true) ['\'', ' ']
+    let par := splitParen st (splitDots s) paren
+    let st1 := if par then wrap st openParen else st
+    raw (breakPieces st1 (splitDots s) true) (if par then ['\'', ' ', ')'] else ['\'', ' '])
 
 def step (st : PState) : Frag → PState
   | .raw s => raw st s
   | .wrap s => wrap st s
-  | .str s => breakLongStr st s
+  | .str s p => breakLongStr st s p
 
 def run (st : PState) (fs : List Frag) : PState := fs.foldl step st
 
@@ -229,10 +246,10 @@ def Shared.clean : Shared := {}
 def W (s : String) : Frag := .wrap s.toList
 def R (s : String) : Frag := .raw s.toList
 
-def litFrag : Lit → Frag
+def litFrag (strParen : Bool := false) : Lit → Frag
   | .int n => W (toString n)
   | .real g => .wrap (real2exp g)
-  | .str s => .str s
+  | .str s => .str s (strParen && ExpPrec.splitLiteralParen)
   | .estr s => W ("\"" ++ s ++ "\"")
   | .bin s => W ("%" ++ (if ExpPrec.binaryPrintedFrom = ExpPrec.binaryStoredIn then s else "(null)"))
   | .ltrue => W "TRUE" | .lfalse => W "FALSE" | .lunknown => W "UNKNOWN"
@@ -257,7 +274,7 @@ def countFrag : Expr → Frag
 mutual
 /-- `EXPR__out( e, paren, previous_op )` -/
 def exprFrags (sh : Shared) : Expr → Bool → Option BinOp → List Frag
-  | .lit l, _, _ => [litFrag l]
+  | .lit l, paren, prev => [litFrag (paren && prev != some .plus) l]
   | .ident s, _, _ => [W s]
   | .bin o a b, paren, prev =>
     (if binParen o paren prev then [W "( "] else [])
